@@ -30,8 +30,8 @@ func (ms *memSet) overlaps(lo, hi uintptr) bool {
 
 func strData(v reflect.Value) (uintptr, uintptr) {
 	s := v.String()
-	if len(s) == 0 {
-		return 0, 0
+	if len(s) <= 1 {
+		return 0, 0 // the runtime serves one-byte strings from a static table: same address, nothing shared
 	}
 	p := uintptr(unsafe.Pointer(unsafe.StringData(s)))
 	return p, p + uintptr(len(s))
